@@ -106,6 +106,20 @@ def sequence(main, rs, **mode):
     return seq
 
 
+def model_calls():
+    """(callee, argument text) of every call on the network object (and of parse_config) anywhere in cli.py: how the
+    model is built and rendered -- it must not depend on the output-mode flags"""
+    src = open(os.path.join(common.REPO, "floogen", "cli.py")).read()
+    out = []
+    for node in ast.walk(ast.parse(src)):
+        if isinstance(node, ast.Call):
+            name = call_name(node)
+            if name.startswith("network.") or name == "parse_config":
+                args = [ast.unparse(a) for a in node.args] + [f"{k.arg}={ast.unparse(k.value)}" for k in node.keywords]
+                out.append((name, ", ".join(args)))
+    return sorted(set(out))
+
+
 def generate():
     main, rs = extract()
     seq = sequence(main, rs)
@@ -127,6 +141,9 @@ def generate():
                              "; ".join(f"({coq_str(k)}, ({coq_str(n)}, {coq_str(t)}))" for k, n, t in sq) + "])")
     lines.append(";\n".join(modes))
     lines.append("].")
+    lines += ["", "(* every call on the network object / of parse_config in cli.py with its argument text *)",
+              "Definition cli_model_calls : list (string * string) := [" +
+              "; ".join(f"({coq_str(a)}, {coq_str(b)})" for a, b in model_calls()) + "]."]
     return "CliFacts.v", "\n".join(lines) + "\n"
 
 
